@@ -291,6 +291,7 @@ func (s *Session) Close() error {
 	if !atomic.CompareAndSwapUint32(&s.shutdown, 0, 1) {
 		return nil
 	}
+	vpo(vpSessCloseCASed, s, 0)
 	s.logger.infof("close session %s hadShutDown:%d connFd:%d", s.name, atomic.LoadUint32(&s.shutdown), s.connFd)
 
 	s.shutdownLock.Lock()
@@ -310,10 +311,12 @@ func (s *Session) Close() error {
 	}
 	s.streamLock.Unlock()
 
+	vpo(vpSessCloseBeforeCh, s, 0)
 	close(s.shutdownCh)
 	s.dispatcher.post(func() {
 		s.shutdownLock.Lock()
 		defer s.shutdownLock.Unlock()
+		vpo(vpSessTeardownBegin, s, 0)
 		//firstly close eventConn
 		s.eventConn.close()
 
@@ -327,6 +330,7 @@ func (s *Session) Close() error {
 			stream.asyncGoroutineWg.Wait()
 		}
 
+		vpo(vpSessTeardownBeforeUnmap, s, 0)
 		if s.bufferManager != nil {
 			addGlobalBufferManagerRefCount(s.bufferManager.path, -1)
 		}
@@ -334,6 +338,7 @@ func (s *Session) Close() error {
 			s.queueManager.unmap()
 			s.queueManager = nil
 		}
+		vpo(vpSessTeardownEnd, s, 0)
 	})
 
 	return nil
@@ -427,6 +432,7 @@ func (s *Session) waitForSendErr(hdr header, body []byte, errCh chan error) erro
 }
 
 func (s *Session) writeEventData(data []byte, ch chan error) {
+	vpo(vpWriteEventEnter, s, int64(len(data)))
 	if err := s.eventConn.write(data); err != nil {
 		//if _, err := s.netConn.Write(data[:]); err != nil {
 		s.logger.errorf("shmipc: Failed to write data: %s", err.Error())
@@ -443,6 +449,7 @@ func (s *Session) send() {
 	for {
 		select {
 		case ready := <-s.sendCh:
+			vpo(vpSendLoopBeforeCAS, s, 0)
 			for !atomic.CompareAndSwapUint32(&s.writing, 0, 1) {
 				<-s.notifyContinueWriteCh
 			}
@@ -531,6 +538,7 @@ func (s *Session) handleEvents(buf []byte) (consumed int, err error) {
 		if protocolHandlers[msgType] == nil {
 			return consumed + headerSize, ErrInvalidMsgType
 		}
+		vpo(vpEventDispatch, s, int64(msgType))
 		n, stop, err := protocolHandlers[msgType](s, eventHeader, buf[consumed+headerSize:])
 		consumed += n
 		if err != nil {
@@ -617,6 +625,7 @@ func (s *Session) wakeUpPeer() error {
 	if !s.queueManager.sendQueue.markWorking() {
 		return nil
 	}
+	vpo(vpWakeMarked, s, 0)
 	atomic.AddUint64(&s.stats.sendPollingEventCount, 1)
 	if atomic.CompareAndSwapUint32(&s.writing, 0, 1) {
 		//fast path
@@ -625,6 +634,7 @@ func (s *Session) wakeUpPeer() error {
 		asyncNotify(s.notifyContinueWriteCh)
 	} else {
 		//slow path
+		vpo(vpWakeSlow, s, 0)
 		s.sendCh <- sendReady{nil, pollingEventWithVersion[s.communicationVersion], nil}
 	}
 	return nil
